@@ -89,6 +89,14 @@ func check(c Case) error {
 		}
 	}
 	if c.Expand {
+		// relatives the expansion has to reject (a letter that is no IUPAC code after accepted ones) and the steps of
+		// building s up come first, results discarded: a call that ends in an error leaves nothing behind
+		for _, sp := range vk.Spoil(s, "J!"[len(s)%2]) {
+			_, _ = variants.AllVariantsIUPAC(sp)
+		}
+		if st := vk.Stems(s); len(st) > 0 {
+			_, _ = variants.AllVariantsIUPAC(st[len(st)-1])
+		}
 		vs, err := variants.AllVariantsIUPAC(s)
 		if err != nil {
 			return vk.Errf("AllVariantsIUPAC(%q) returned error %v", s, err)
